@@ -179,6 +179,70 @@ def _has(prog, op):
 
 
 # ------------------------------------------------------------------------------------------------------
+def _oracle_variants(case):
+    """further statements of the property on the real module: spawned children belong to the context's own sequence,
+    a nested context on the SAME sequence object starts a fresh generator and leaves the outer one alone, an unbalanced
+    body is reported (RuntimeError), never silently accepted"""
+    import numpy as np
+    import nifty.cl.random as rnd
+    sig = {"site": "random.Context"}
+
+    def pre():
+        _reset()
+        try:
+            _interp(case["pre"], dict(draws=[], last=[]))
+        except (UserExc, IndexError, RuntimeError):
+            pass
+        return bool(rnd._sseq)
+
+    def spawn_body():
+        with rnd.Context(case["seed"]):
+            ch = rnd.spawn_sseq(2)
+            keys = [(int(c.entropy), tuple(int(k) for k in c.spawn_key)) for c in ch]
+            with rnd.Context(ch[1]):
+                return keys, _draw(0)
+
+    _reset()
+    ref = spawn_body()
+    if not pre():
+        return None
+    got = spawn_body()
+    if got != ref:
+        return ("seed sequences spawned inside Context(seed) (and draws from them) depend on the history before the context",
+                dict(sig, what="spawn-depends-on-history"))
+    if ref[0] != [(case["seed"], (0,)), (case["seed"], (1,))]:
+        return (f"spawn_sseq(2) inside a fresh Context({case['seed']}) returns children {ref[0]}, not the context's own children",
+                dict(sig, what="spawn-not-from-top"))
+    # same sequence object nested
+    if not pre():
+        return None
+    s = np.random.SeedSequence(case["seed"])
+    with rnd.Context(s):
+        a = _draw(0)
+        with rnd.Context(s):
+            b = _draw(0)
+        c = _draw(0)
+    _reset()
+    with rnd.Context(np.random.SeedSequence(case["seed"])):
+        a0 = _draw(0)
+        c0 = _draw(0)
+    if (a, b, c) != (a0, a0, c0):
+        return ("a nested context on the same seed sequence does not start a fresh generator or disturbs the outer generator",
+                dict(sig, what="nested-same-sequence"))
+    # unbalanced body
+    if not pre():
+        return None
+    depth = len(rnd._sseq)
+    try:
+        with rnd.Context(case["seed"]):
+            rnd.push_sseq_from_seed(3)
+        return (f"a context body that leaves an extra frame on the stack (depth {depth} -> {len(rnd._sseq)}) ends without "
+                "RuntimeError: inconsistent RNG usage goes unnoticed", dict(sig, what="unbalanced-not-detected"))
+    except RuntimeError:
+        pass
+    return None
+
+
 def oracle(case):
     """property on the real module only: a context entered after `pre` restores the generator; draws depend on the seed"""
     if "pre" not in case:
@@ -188,6 +252,10 @@ def oracle(case):
     saved = (rnd._sseq, rnd._rng)
     sig = {"site": "random.Context"}
     try:
+        if case.get("variants"):
+            r = _oracle_variants(case)
+            if r:
+                return r
         # reference: pristine state
         _reset()
         ref = []
@@ -310,7 +378,8 @@ def run(ctx):
     # ---- oracle: restoration and seed-dependence on the real module ---------------------------------------------
     for i in range(ctx.n(150, 1500)):
         case = dict(pre=_gen_prog(rng), seed=rng.choice([1, 5, 7, 42]), reqs=[rng.randrange(9) for _ in range(rng.randrange(1, 5))],
-                    nested=rng.random() < 0.5, **{"raise": rng.random() < 0.4}, raise_inner=rng.random() < 0.3)
+                    nested=rng.random() < 0.5, **{"raise": rng.random() < 0.4}, raise_inner=rng.random() < 0.3,
+                    variants=(i % 3 == 0))
         ctx.stat("oracle:" + ("raise" if case["raise"] or (case["nested"] and case["raise_inner"]) else "normal"))
         ctx.case(case, nontrivial=True)
         r = oracle(case)
